@@ -18,6 +18,21 @@ CHECKS = {
     ref="DESIGN.md §3 C15",
     note="Trusted: stdlib codecs (compressed bytes validated by stdlib decompression, not byte identity; gzip embeds a timestamp).",
     technique="exhaustive enumeration of parameter grids + Hypothesis random data against independent reference definitions"),
+ "C01": dict(
+    text="Spec trees drawn from a shared combinator grammar (sound by construction: greedy nodes only in tail position, injective tables, unambiguous Select, byte-aligned bit regions) are realised as construct objects and paired with boundary-biased values of their own domain and keyword contexts; parse(build(v)) must equal the normalisation computed by an independent reference model, a model-free projection of the supplied plain members must come back unchanged, and build(parse(build(v))) must reproduce the bytes.",
+    ref="DESIGN.md §3 C01",
+    note="Trusted: pbt/refmodel.py for the normalisation of derived members (validated by agreement on the unchanged tree and by mutants), Python codecs. Non-injective formats are excluded from the value domain.",
+    technique="property-based testing (Hypothesis, recursive grammar of constructs + dependent value generation): round trip against a reference normalisation"),
+ "C02": dict(
+    text="For generated sequential specs, byte strings from six sources (random, boundary, bytes built by the construct, bytes built by the independent model, and mutations of both) are parsed; every accepted input must re-build, re-parse to an equal value (members that build derives by itself masked) and re-build to identical bytes; construct-built bytes must be reproduced exactly. All gallery and deprecated_gallery formats are run on their blobs and on mutated blob prefixes, UTIndex on all one-byte heads.",
+    ref="DESIGN.md §3 C02",
+    note="Excluded: BOM codecs, gzip byte identity, Timestamp. deprecated_gallery.cap_file is a recorded known finding (drops microseconds).",
+    technique="property-based testing with mutation-based input generation; idempotence (metamorphic) oracle"),
+ "C03": dict(
+    text="Differential against an independent executable specification (pbt/refmodel.py, never imports construct): build bytes, parsed value, stream advance and accept/reject status must agree for generated core-fragment specs x values x byte strings x invalid values; every numeric type through each public name with all 8-bit and (thorough) all 16-bit values, boundary values to 128 bits, every binary16 pattern, VarInt/ZigZag enumerated below 2^21, every byte through generated Flag/Enum/FlagsEnum/Mapping instances.",
+    ref="DESIGN.md §3 C03",
+    note="Trusted: the reference model (its own bugs surface as disagreement on the unchanged tree), exact-rational IEEE-754 codec, Python codecs. Ill-typed build objects are not generated.",
+    technique="differential testing against a reference model: exhaustive enumeration of small domains + Hypothesis for composites"),
 }
 
 NOT_APPLICABLE = [dict(property_id=p, reason="check not yet built in this revision of /verif (planned, see DESIGN.md §3)") for p in ALL if p not in CHECKS]
